@@ -31,8 +31,11 @@ ASSUMPTIONS = [
     "the memory side takes write data no earlier than 2 cycles after accepting the command (the core's minimum is larger: "
     "command FIFO + buffer + write_latency+1); the read-modify-write path relies on it",
     "per configuration (buffer depths, base address, with / without read-modify-write)",
+    "burst-to-beat address generation is PROVED (induction, every length 1..256, size, type, start address) under the AXI4 "
+    "rules as preconditions: WRAP bursts of 2/4/8/16 beats with aligned start, no burst crossing a 4 KB boundary (beyond "
+    "it the generator's 13-bit signed offset register overflows), burst payload held until its last beat",
 ]
-EXPLANATION = "bounded contract check on the real AXI bridge with an AXI4 master model and the NativePortSpec environment"
+EXPLANATION = "bounded contract check on the real AXI bridge with an AXI4 master model and the NativePortSpec environment; burst->beat generator proved by induction"
 
 AW_, DW_, IDW = 6, 16, 1
 
@@ -202,6 +205,74 @@ def _slot_len(f, wq, ptr, aw):
 CFGS = [dict(), dict(rmw=True, base=0x10), dict(base=0x8, wdepth=4, rdepth=4)]
 
 
+# ---- burst -> beat address generator (proved for every burst length / size / type) ------------------------------------------
+
+class B2BHarness(Module):
+    def __init__(self, cfg):
+        from litex.soc.interconnect.axi import AXIStreamInterface, ax_description, AXIBurst2Beat
+        from vc.shims import capture_locals
+        aw = cfg.get("address_width", 16)
+        self.burst = AXIStreamInterface(layout=ax_description(aw), id_width=cfg.get("id_width", 2))
+        self.beat = AXIStreamInterface(layout=ax_description(aw), id_width=cfg.get("id_width", 2))
+        with capture_locals(AXIBurst2Beat.__init__) as cap:
+            self.submodules.b2b = AXIBurst2Beat(self.burst, self.beat)
+        self.L = cap.of(self.b2b)
+
+
+def burst2beat_contract(cfg):
+    """LiteX AXIBurst2Beat as used by both AXI channels of the bridge: beat i of a burst carries the AXI4 address of beat i
+    (FIXED: start; INCR: start + i*size; WRAP: wraps inside the aligned window of (len+1)*size bytes), the burst's ID,
+    first / last on beats 0 / len, exactly len+1 beats, burst.ready only with the accepted last beat -- by induction, for
+    every start address, length (1..256 beats), size and burst type"""
+    h = B2BHarness(cfg)
+    bu, be, L = h.burst, h.beat, h.L
+    AW = len(bu.addr)
+    free = [bu.valid, bu.addr, bu.burst, bu.len, bu.size, bu.id, be.ready]
+    c = Contract("AXIBurst2Beat", h, free, cfg=cfg)
+    cnt, off = L["beat_count"], L["beat_offset"]
+    taken = lambda f: And(f.b(be.valid), f.b(be.ready))
+    # AXI master: a burst is held (valid and payload) until its last beat has been accepted
+    c.ghost("busy", "bool", False, lambda f: If_(taken(f), Not(f.b(be.last)), Or(f.g.busy, f.b(bu.valid))))
+    for nm, sig in (("addr", bu.addr), ("burst", bu.burst), ("len", bu.len), ("size", bu.size), ("id", bu.id)):
+        c.ghost("p_" + nm, len(sig), 0, lambda f, sig=sig: f(sig))
+    c.assume("axi.burst_held_until_its_last_beat_is_accepted", lambda f: Implies(f.g.busy, And(
+        f.b(bu.valid), f(bu.addr) == f.g.p_addr, f(bu.burst) == f.g.p_burst, f(bu.len) == f.g.p_len,
+        f(bu.size) == f.g.p_size, f(bu.id) == f.g.p_id)))
+    W = AW + 2
+    size = lambda f: zext(f(bu.size), W)
+    ln = lambda f: zext(f(bu.len), W)
+    B = lambda f: BV(1, W) << size(f)
+    is_incr = lambda f: f(bu.burst) == 1
+    is_wrap = lambda f: f(bu.burst) == 2
+    c.assume("axi4.wrap_bursts_have_2_4_8_16_beats_and_an_aligned_start", lambda f: Implies(is_wrap(f), And(
+        Or(*[f(bu.len) == v for v in (1, 3, 7, 15)]), (zext(f(bu.addr), W) & (B(f) - 1)) == 0)))
+    c.assume("axi4.burst_does_not_cross_a_4k_boundary", lambda f: Implies(is_incr(f), ULE(
+        (zext(f(bu.addr), W + 8) & 0xFFF) + ((zext(f(bu.len), W + 8) + 1) << zext(f(bu.size), W + 8)), BV(4096, W + 8))))
+    c.assume("axi4.burst_type_not_reserved", lambda f: f(bu.burst) != 3)
+    c.ghost("i", 9, 0, lambda f: If_(taken(f), If_(f.b(be.last), BV(0, 9), f.g.i + 1), f.g.i))
+
+    def spec_addr(f, i):
+        a = zext(f(bu.addr), W)
+        step = zext(i, W) << size(f)
+        mask = (ln(f) << size(f)) | (B(f) - 1)
+        wrapped = (a & ~mask) | ((a + step) & mask)
+        return If_(is_incr(f), a + step, If_(is_wrap(f), wrapped, a))
+    sx = lambda f: z3.SignExt(W - len(off), f(off)) if W > len(off) else z3.Extract(W - 1, 0, f(off))
+    c.invariant("beat_counter_is_the_beat_index", lambda f: And(zext(f(cnt), 9) == f.g.i, ULE(f.g.i, zext(f(bu.len), 9)) if True else True))
+    c.invariant("offset_register_is_the_axi4_offset_of_beat_i", lambda f: Implies(
+        Or(f.g.busy, f.b(bu.valid)), z3.Extract(AW - 1, 0, zext(f(bu.addr), W) + sx(f)) == z3.Extract(AW - 1, 0, spec_addr(f, f.g.i))))
+    c.invariant("idle_between_bursts", lambda f: Implies(Not(f.g.busy), And(f.g.i == 0, f(off) == 0)))
+    c.ensures("beat_i_carries_the_axi4_address_of_beat_i", lambda f: Implies(
+        f.b(be.valid), f(be.addr) == z3.Extract(AW - 1, 0, spec_addr(f, f.g.i))))
+    c.ensures("first_last_and_id", lambda f: Implies(f.b(be.valid), And(
+        f.b(be.first) == (f.g.i == 0), f.b(be.last) == (f.g.i == zext(f(bu.len), 9)), f(be.id) == f(bu.id))))
+    c.ensures("burst_consumed_exactly_with_its_last_beat", lambda f: f.b(bu.ready) == And(f.b(be.ready), f.b(be.last)))
+    c.ensures("beats_only_for_a_presented_burst", lambda f: Implies(f.b(be.valid), Or(f.b(bu.valid), f.g.busy)))
+    c.cover("wrap_burst_wraps", lambda f: And(is_wrap(f), taken(f), f.g.i == 3, ULT(f(be.addr), f(bu.addr))), within=8)
+    c.cover("long_incr_burst", lambda f: And(is_incr(f), taken(f), f.g.i == 5), within=10)
+    return c
+
+
 def tasks(tier):
     out = []
     q = tier == "quick"
@@ -215,6 +286,8 @@ def tasks(tier):
     ]
     if not q:
         plan += [(dict(base=0x8, wdepth=4, rdepth=4), "single", 0, 16, True), (dict(rmw=True), None, 0, 9, False)]
+    for cfg in [dict(address_width=16), dict(address_width=32)][:1 if q else 2]:
+        out.append(dict(fn="burst2beat_contract", cfg=cfg, modes=["inductive", "cover", "difftest"], weight=10, difftest_cycles=100))
     for cfg, sc, dq, dt, one in plan:
         d = dq if q else dt
         cfg = dict(cfg, depth=d, scenario=sc)
